@@ -1,6 +1,7 @@
 import SamplyModel.Lemmas.PanicKernels
 import SamplyModel.Model.AsmDecode
 import SamplyModel.Model.LineBuffer
+import SamplyModel.Model.BreakpadIndex
 /-!
 Bridges from the panic kernels of C08 (`PK.*`, explicit `panic` outcomes at every checked operation) to the
 models that other properties tie to the code value-for-value:
@@ -234,5 +235,97 @@ theorem decodeLoop_eq_tied (dec : List UInt8 → PK.Dec) (adjust : Nat) (bytes :
       have h3 : ¬ offset > bytes.length := by omega
       have h4 : ¬ offset + adjust > Asm.u32max := by simpa [u32Max, Asm.u32max] using hov
       simp only [hnot, if_false, hd', convDec, h3, h4, hend, toPK_cons]
+
+end C08T
+
+/-! ### the `u32` layout arithmetic of `serialize_to_bytes`: exactly the total length of the tied model -/
+namespace C08T
+open PK
+
+/-- every `u32` step of index.rs:166-182 succeeds as soon as the total fits, and the result is the total -/
+theorem symindexLayout_exact (m f i s : Nat)
+    (hfit : 48 + m + ((m + 3) / 4 * 4 - m) + f * 16 + i * 16 + s * 4 + s * 16 ≤ u32Max) :
+    symindexLayout m f i s = .ok (48 + m + ((m + 3) / 4 * 4 - m) + f * 16 + i * 16 + s * 4 + s * 16) := by
+  simp only [u32Max] at hfit
+  unfold symindexLayout
+  have h1 : m + 4 ≤ u32Max := by simp only [u32Max]; omega
+  simp only [addU32, h1, if_true, bind_ok, subU32, mulU32]
+  have h2 : 1 ≤ m + 4 := by omega
+  simp only [h2, if_true, bind_ok]
+  have e : m + 4 - 1 = m + 3 := by omega
+  simp only [e]
+  have h3 : (m + 3) / 4 * 4 ≤ u32Max := by simp only [u32Max]; omega
+  simp only [h3, if_true, bind_ok]
+  have h4 : m ≤ (m + 3) / 4 * 4 := by omega
+  simp only [h4, if_true, bind_ok]
+  have h5 : 48 + m ≤ u32Max := by simp only [u32Max]; omega
+  simp only [h5, if_true, bind_ok]
+  have h6 : 48 + m + ((m + 3) / 4 * 4 - m) ≤ u32Max := by simp only [u32Max]; omega
+  simp only [h6, if_true, bind_ok]
+  have h7 : f * 16 ≤ u32Max := by simp only [u32Max]; omega
+  simp only [h7, if_true, bind_ok]
+  have h8 : 48 + m + ((m + 3) / 4 * 4 - m) + f * 16 ≤ u32Max := by simp only [u32Max]; omega
+  simp only [h8, if_true, bind_ok]
+  have h9 : i * 16 ≤ u32Max := by simp only [u32Max]; omega
+  simp only [h9, if_true, bind_ok]
+  have h10 : 48 + m + ((m + 3) / 4 * 4 - m) + f * 16 + i * 16 ≤ u32Max := by simp only [u32Max]; omega
+  simp only [h10, if_true, bind_ok]
+  have h11 : s * 4 ≤ u32Max := by simp only [u32Max]; omega
+  simp only [h11, if_true, bind_ok]
+  have h12 : 48 + m + ((m + 3) / 4 * 4 - m) + f * 16 + i * 16 + s * 4 ≤ u32Max := by simp only [u32Max]; omega
+  simp only [h12, if_true, bind_ok]
+  have h13 : s * 16 ≤ u32Max := by simp only [u32Max]; omega
+  simp only [h13, if_true, bind_ok]
+  have h14 : 48 + m + ((m + 3) / 4 * 4 - m) + f * 16 + i * 16 + s * 4 + s * 16 ≤ u32Max := by simp only [u32Max]; omega
+  simp only [h14, if_true]
+
+theorem totalLen_eq (ix : BP.Index) :
+    BP.totalLen ix = 48 + ix.moduleInfo.length + ((ix.moduleInfo.length + 3) / 4 * 4 - ix.moduleInfo.length)
+      + ix.files.length * 16 + ix.origins.length * 16 + ix.addrs.length * 4 + ix.addrs.length * 16 := by
+  simp [BP.totalLen, BP.layout, BP.padLen]
+
+/-- conversely: when the total does not fit in `u32`, one of the steps overflows -/
+theorem symindexLayout_panic (m f i s : Nat)
+    (hbig : ¬ 48 + m + ((m + 3) / 4 * 4 - m) + f * 16 + i * 16 + s * 4 + s * 16 ≤ u32Max) :
+    symindexLayout m f i s = .panic := by
+  simp only [u32Max] at hbig
+  unfold symindexLayout
+  simp only [addU32, subU32, mulU32, u32Max]
+  by_cases h1 : m + 4 ≤ 4294967295
+  · have h2 : 1 ≤ m + 4 := by omega
+    have e : m + 4 - 1 = m + 3 := by omega
+    have h3 : (m + 3) / 4 * 4 ≤ 4294967295 := by omega
+    have h4 : m ≤ (m + 3) / 4 * 4 := by omega
+    simp only [h1, if_true, bind_ok, h2, e, h3, h4]
+    by_cases h5 : 48 + m ≤ 4294967295
+    case neg => simp only [h5, if_false]; rfl
+    simp only [h5, if_true, bind_ok]
+    by_cases h6 : 48 + m + ((m + 3) / 4 * 4 - m) ≤ 4294967295
+    · simp only [h6, if_true, bind_ok]
+      by_cases h7 : f * 16 ≤ 4294967295
+      · simp only [h7, if_true, bind_ok]
+        by_cases h8 : 48 + m + ((m + 3) / 4 * 4 - m) + f * 16 ≤ 4294967295
+        · simp only [h8, if_true, bind_ok]
+          by_cases h9 : i * 16 ≤ 4294967295
+          · simp only [h9, if_true, bind_ok]
+            by_cases h10 : 48 + m + ((m + 3) / 4 * 4 - m) + f * 16 + i * 16 ≤ 4294967295
+            · simp only [h10, if_true, bind_ok]
+              by_cases h11 : s * 4 ≤ 4294967295
+              · simp only [h11, if_true, bind_ok]
+                by_cases h12 : 48 + m + ((m + 3) / 4 * 4 - m) + f * 16 + i * 16 + s * 4 ≤ 4294967295
+                · simp only [h12, if_true, bind_ok]
+                  by_cases h13 : s * 16 ≤ 4294967295
+                  · simp only [h13, if_true, bind_ok]
+                    have h14 : ¬ 48 + m + ((m + 3) / 4 * 4 - m) + f * 16 + i * 16 + s * 4 + s * 16 ≤ 4294967295 := hbig
+                    simp only [h14, if_false]
+                  · simp only [h13, if_false]; rfl
+                · simp only [h12, if_false]; rfl
+              · simp only [h11, if_false]; rfl
+            · simp only [h10, if_false]; rfl
+          · simp only [h9, if_false]; rfl
+        · simp only [h8, if_false]; rfl
+      · simp only [h7, if_false]; rfl
+    · simp only [h6, if_false]; rfl
+  · simp only [h1, if_false]; rfl
 
 end C08T
